@@ -157,3 +157,38 @@ def generated_names_across_processes(nseeds):
     env.reached()
     WHY["seen"] = sorted(seen)
     return len(seen) == 1 and not next(iter(seen)).startswith("ERR")
+
+
+@harness("C12", args="nseeds: int", concrete=True, sample=(6,),
+         bounds=f"concrete seed (no symbolic input): each of the {NDES} designs (w = 1, 2) run in real processes with 6 different PYTHONHASHSEED values and different amounts of prior allocation: identical digests of package + spice + spectre + verilog (covers address- and str-hash-dependent behaviour that the set-order model does not express)")
+def designs_across_processes(nseeds):
+    from concurrent.futures import ThreadPoolExecutor
+    jobs = [(sel, w) for sel in range(NDES) for w in (1, 2)]
+    with ThreadPoolExecutor(max_workers=int(os.environ.get("VERIF_JOBS", "8"))) as ex:
+        res = list(ex.map(lambda j: real_processes_differ(j[0], j[1], n=nseeds), jobs))
+    env.reached()
+    bad = [(j, sorted(seen)[:3]) for j, (differ, seen) in zip(jobs, res) if differ or any(s.startswith("ERR") for s in seen)]
+    WHY["seen"] = bad
+    return not bad
+
+
+EX_PROG = "import hashlib, harness.c06_closure as C; ran, pk = C.capture_examples(); print(ran, len(pk), hashlib.sha256(b'|'.join(p.SerializeToString(deterministic=True) for p in pk)).hexdigest())"
+
+
+@harness("C12", args="nseeds: int", concrete=True, sample=(4,),
+         bounds="concrete seed (no symbolic input): the repository's 7 example programs run in 4 real processes with different PYTHONHASHSEED values and different amounts of prior allocation: every package they export is byte-identical across the processes")
+def examples_across_processes(nseeds):
+    from concurrent.futures import ThreadPoolExecutor
+    R = os.environ.get("VERIF_REPO", "/repo")
+
+    def one(seed):
+        e = dict(os.environ, PYTHONHASHSEED=str(seed), VERIF_MODE="replay", PYTHONPATH=f"/verif:{R}:{R}/pdks/Sky130:{R}/pdks/Gf180:{R}/pdks/Asap7")
+        junk = "x=[object() for _ in range(%d)];" % (seed * 53 % 500)
+        p = subprocess.run([sys.executable, "-c", junk + EX_PROG], capture_output=True, text=True, env=e, cwd="/verif")
+        return p.stdout.strip().splitlines()[-1] if p.stdout.strip() else "ERR " + p.stderr[-200:]
+
+    with ThreadPoolExecutor(max_workers=4) as ex:
+        seen = set(ex.map(one, range(1, nseeds + 1)))
+    env.reached()
+    WHY["seen"] = sorted(seen)
+    return len(seen) == 1 and next(iter(seen)).startswith("7 ")
